@@ -159,6 +159,12 @@ func (c *Conn) Write(p []byte) (int, error) {
 		}
 		ch := make(chan struct{})
 		c.mu.Lock()
+		if c.LocalClosed {
+			// closed between the two halves of the write: nothing is left to wait for (Close only
+			// releases a stall it can see)
+			c.mu.Unlock()
+			return n1, io.ErrClosedPipe
+		}
 		c.stallCh = ch
 		c.mu.Unlock()
 		<-ch
